@@ -105,7 +105,11 @@ Section Controller.
                   if catches dispatch_process_catches e
                   then mk_dres (remove_cid (replace t0 s2) (sa_cid C s2)) None None (Some (sa_cid C s2)) []
                   else mk_dres (replace t0 s2) None (Some e) (Some (sa_cid C s2)) []
-              | PDone s2 reply => finish t0 s2 reply
+              | PDone s2 reply =>
+                  (* an IKE_SA_INIT request that was ignored leaves the fresh IkeSa in INITIAL: it is dropped *)
+                  if dispatch_drop_ignored (sa_state C s2)
+                  then mk_dres (remove_cid (replace t0 s2) (sa_cid C s2)) reply None (Some (sa_cid C s2)) []
+                  else finish t0 s2 reply
               end
           end
         else
